@@ -1,17 +1,36 @@
 """C18 - verdicts are a pure function of command, configuration, cwd and referenced files.
 
-Histories of 1..400 calls (analyses hitting far more than 32 distinct handler modules so that the
-LRU evicts, several configs, cwds, remote flags, whole main() runs in all three host shapes, MODE
-assignments, logging configured onto failing sinks in the middle) are executed in ONE Python
-process (harness/c18_worker.py); then the query is asked, twice.
+Four streams, all on the real code in real processes (harness/c18_worker.py):
+
+1. Histories of 1..400 calls (analyses hitting far more than 32 distinct handler modules so that the
+   LRU evicts, several configs, cwds, remote flags, whole main() runs in all three host shapes, MODE
+   assignments, logging configured onto failing sinks in the middle) executed in ONE Python process;
+   then the query is asked, twice.
+2. History oracle over a constructed pool (harness/c18_pool.py: every handler module, a script importing
+   each safe-listed module in each import spelling, scripts importing nothing next to m.py / m/ for every
+   m, the same bytes in clean and shadowed directories, every config text x command, cwd and remote
+   variants, wrappers, delegations, sql, redirects, substitutions, MCP tools, whole hook runs onto
+   working and failing log sinks): every item answered in a fresh process; then random permutations
+   (forwards and backwards) and ONE walk in which every ordered pair (leaker, victim) is consecutive -
+   the walk is PairWalk.pair_walk of the model (C18_pair_walk: complete, n*n+2n long) - in long-lived
+   processes, with the caller's Config objects shared or re-parsed; every answer must be the fresh one.
+   A wrong answer is shrunk (the analysis directly before; else delta debugging over the prefix, each
+   candidate in a fresh process) to a replayable history.
+3. Residue oracle (harness/c18_state.py): before and after EVERY analysis of a pass over the pool,
+   everything reachable from the dippy modules is fingerprinted - module globals, class attributes,
+   default-argument objects, closure cells, function attributes, functools caches (and the objects they
+   hand out), the caller's shared Config objects, process-level settings.  What one call changes must be
+   what Cache.residue says it changes (handler cache; MODE / _log_config / _log_disabled for main());
+   anything else is reported - with a concrete (leaker, victim) replay when the pool holds a victim,
+   as the residue itself (no-failing-input-found) when not.
+4. The static inventory of process state in the source (tools/tables/t18_cache.py) is tied to the model by
+   theorem C18_state_tie.
 
 Implementation-level oracle (model-free): the answer after the history is the answer of a fresh
 process asked only the query, and asking twice gives the same.
 Correspondence: Model/Cache.v - the hit/miss sequence of every _load_handler call and cache_info()
 equal the model's LRU on the recorded module names; MODE / _log_config / _log_disabled after the
-history equal the model's state; vars() of analyzer, cli, config, dippy, parable and every other
-dippy.* module are fingerprinted before and after: a changed global outside the model's state is
-reported (the model would be missing process state)."""
+history equal the model's state; per call, the changed state components equal Cache.residues."""
 from __future__ import annotations
 
 import concurrent.futures as cf
@@ -25,12 +44,18 @@ import tempfile
 from . import c18_pool, core, lib
 
 TRUSTED = [
-    "Coq 8.16.1 kernel and its VM (vm_compute for the two closed examples)",
+    "Coq 8.16.1 kernel and its VM (vm_compute for the closed examples and the state tie)",
     "axioms: none (every theorem of Props/C18.v prints 'Closed under the global context')",
-    "tools/tables/t18_cache.py (the lru_cache bound and the single-argument signature of _load_handler, regenerated on every run)",
+    "tools/tables/t18_cache.py (the lru_cache bound and signature of _load_handler; the static inventory of functools caches, global "
+    "statements, class-level containers, mutable defaults, table writes, foreign writes and argument writes - a syntactic scan, regenerated on every run)",
     "extraction: ExtrOcamlBasic only; OCaml 4.13.1; ocaml/driver.ml; cross-checked in Coq by vm_compute on a sample",
     "the model takes 'an analysis' to be any program whose only access to process state is get_handler (analyzer.analyze has "
-    "config, cwd and remote as explicit parameters): validated by the fingerprints of all dippy.* module globals before/after every history",
+    "config, cwd and remote as explicit parameters): validated per analysis by the residue oracle - harness/c18_state.py fingerprints every object "
+    "reachable from the dippy modules (globals, class attributes, defaults, closures, function attributes, functools caches and their values, "
+    "the caller's Config objects, process settings).  Its completeness is the hypothesis of C18_residue_sound: state kept where the walker does "
+    "not look (C extension objects, the file system, other processes) is not seen; the history oracle is the independent net for that",
+    "a child forked from a process that has imported dippy and analysed nothing is a fresh process (compared with really fresh interpreters "
+    "for every python victim and 1 item in 8 of the rest, each run)",
     "importlib.import_module is deterministic and returns the same module object for the same name (sys.modules); functools.lru_cache - modelled",
     "the handlers themselves, the parser and the file system contents are fixed during a history (the property's 'referenced files')",
 ]
@@ -745,8 +770,11 @@ def run(tier, seed, replay=None):
         out.disagreements.append({"correspondence": "extracted OCaml model <-> vm_compute in Coq", "detail": mism[:5]})
     out.extra["rule"] = (
         "random histories of 1..400 calls (70% analyze over one command per handler module x 4 argument shapes (bare, 1, 2, 3 words) + 24 curated compound "
-        "commands, 4 configs, 6 cwds, 10% remote; 16% whole main() runs in the three host shapes over cwds whose .dippy logs to a good "
+        "commands, 4 configs, 7 cwds, 10% remote; 16% whole main() runs in the three host shapes over cwds whose .dippy logs to a good "
         "file, /dev/full, a NUL path, a path below a file; MODE assignments; direct configure_logging/log_decision/check_command), "
         "with and without a mode flag; systematic: every handler module loaded, evicted by 40 others, asked again; every handler command primed with its other shapes and configs; logging-failure "
-        "sandwiches per host.  distinct = distinct (history, query, flags); every case is non-trivial (history of at least one call)")
+        "sandwiches per host.  Pool (harness/c18_pool.py, built from SAFE_MODULES and KNOWN_HANDLERS of the tree under test): fresh answer per item; "
+        "residue snapshots around every item once; permutations forwards and backwards; one walk with every ordered pair of the core sub-pool (quick) / of the "
+        "whole pool (thorough) consecutive, cut into pieces that overlap by one element, Config objects shared in every other process.  "
+        "distinct = distinct (history, query, flags) / pool item / walk piece; every case is non-trivial (history of at least one call)")
     return out
